@@ -72,4 +72,20 @@ theorem aliases_agree :
 
 example : getScheduler namedSchedulers 4 false .none .none false none none [some 2, none, some 3] = .valueError := by decide
 
+/-! non-vacuity of the theorems above on the extracted table -/
+
+example : getScheduler namedSchedulers 4 false (.name "Threads") .none false (some 2) none []
+        = getScheduler namedSchedulers 4 false (.name "Threads") (.name "sync") true (some 2) (some 1) [some 3] :=
+  explicit_scheduler_decides namedSchedulers 4 (.name "Threads") (by decide) _ _ _ _ _ _ _ _ _
+
+example : getScheduler namedSchedulers 4 false .none (.name "processes") false none none []
+        = getScheduler namedSchedulers 4 false .none (.name "processes") true none (some 1) [some 3, some 4] :=
+  config_scheduler_decides namedSchedulers 4 (.name "processes") (by decide) _ _ _ _ _ _ _
+
+example : getScheduler namedSchedulers 4 false .none .none false none none [some 7, none, some 7] = .default 7 :=
+  common_default namedSchedulers 4 none 7 _ (by decide) (by decide)
+
+example : getScheduler namedSchedulers 4 false .none .none false none none (some 1 :: [none, some 1] ++ some 2 :: [some 1]) = .valueError :=
+  differing_defaults_rejected namedSchedulers 4 none 1 2 (by decide) _ (by decide) _
+
 end Dask.C14
